@@ -5,231 +5,6 @@ package minify
 // Harnesses for C08 (Number / Decimal). Reference recogniser and oracle are written from the
 // number grammar [+-]?(d+.?d*|.d+)([eE][+-]?d+)? and never call the code under test.
 
-func refDigit(c byte) bool { return '0' <= c && c <= '9' }
-
-// refIsNumber: [+-]?(d+.?d*|.d+)([eE][+-]?d+)?
-func refIsNumber(b []byte, allowExp bool) bool {
-	i, n := 0, len(b)
-	if i < n && (b[i] == '+' || b[i] == '-') {
-		i++
-	}
-	nd := 0
-	for i < n && refDigit(b[i]) {
-		i++
-		nd++
-	}
-	if i < n && b[i] == '.' {
-		i++
-		nf := 0
-		for i < n && refDigit(b[i]) {
-			i++
-			nf++
-		}
-		if nd == 0 && nf == 0 {
-			return false
-		}
-	} else if nd == 0 {
-		return false
-	}
-	if allowExp && i < n && (b[i] == 'e' || b[i] == 'E') {
-		i++
-		if i < n && (b[i] == '+' || b[i] == '-') {
-			i++
-		}
-		ne := 0
-		for i < n && refDigit(b[i]) {
-			i++
-			ne++
-		}
-		if ne == 0 {
-			return false
-		}
-	}
-	return i == n
-}
-
-type refNum struct {
-	neg  bool
-	ds   []byte // significant digits, no leading/trailing zeros
-	e    int    // value = 0.ds * 10^e  (normalised exponent)
-	zero bool
-}
-
-// refParse assumes refIsNumber(b)
-func refParse(b []byte) refNum {
-	var r refNum
-	i, n := 0, len(b)
-	if i < n && (b[i] == '+' || b[i] == '-') {
-		r.neg = b[i] == '-'
-		i++
-	}
-	ds := make([]byte, 0, n)
-	intLen := 0
-	for i < n && refDigit(b[i]) {
-		ds = append(ds, b[i])
-		i++
-		intLen++
-	}
-	if i < n && b[i] == '.' {
-		i++
-		for i < n && refDigit(b[i]) {
-			ds = append(ds, b[i])
-			i++
-		}
-	}
-	exp := 0
-	if i < n && (b[i] == 'e' || b[i] == 'E') {
-		i++
-		eneg := false
-		if i < n && (b[i] == '+' || b[i] == '-') {
-			eneg = b[i] == '-'
-			i++
-		}
-		for i < n {
-			exp = exp*10 + int(b[i]-'0')
-			i++
-		}
-		if eneg {
-			exp = -exp
-		}
-	}
-	// value = 0.ds * 10^(intLen+exp)
-	e := intLen + exp
-	lead := 0
-	for lead < len(ds) && ds[lead] == '0' {
-		lead++
-		e--
-	}
-	ds = ds[lead:]
-	for len(ds) > 0 && ds[len(ds)-1] == '0' {
-		ds = ds[:len(ds)-1]
-	}
-	if len(ds) == 0 {
-		r.zero = true
-		return r
-	}
-	r.ds = ds
-	r.e = e
-	return r
-}
-
-func refSame(a, b refNum) bool {
-	if a.zero || b.zero {
-		return a.zero && b.zero
-	}
-	if a.neg != b.neg || len(a.ds) != len(b.ds) || a.e != b.e {
-		return false
-	}
-	for i := range a.ds {
-		if a.ds[i] != b.ds[i] {
-			return false
-		}
-	}
-	return true
-}
-
-// vWithin: out is a sub-slice of in (same backing array, inside in's length).
-func vWithin(out, in []byte) bool {
-	if len(out) == 0 {
-		return true
-	}
-	for k := range in {
-		if &out[0] == &in[k] {
-			return len(out) <= len(in)-k
-		}
-	}
-	return false
-}
-
-// refWithinHalfUlp: |b - a| <= 1/2 * 10^(a.e - prec), i.e. half a unit of a's prec-th significant digit.
-// Exponents must be concrete on the path (inputs without a symbolic exponent part); digits may be symbolic.
-// Branch-free digit arithmetic (vIte) keeps the oracle from forking.
-func refWithinHalfUlp(a, b refNum, prec int) bool {
-	if a.zero {
-		return b.zero
-	}
-	if !b.zero && a.neg != b.neg {
-		return false
-	}
-	ae, be := vConcrete(a.e), a.e
-	if b.zero {
-		be = ae
-	} else {
-		be = vConcrete(b.e)
-	}
-	// common digit grid: index 0 has weight 10^(hi-1), last index weight 10^lo
-	hi, lo := ae, ae-len(a.ds)
-	if !b.zero {
-		if be > hi {
-			hi = be
-		}
-		if be-len(b.ds) < lo {
-			lo = be - len(b.ds)
-		}
-	}
-	q := ae - prec // bound is 10^q / 2
-	if q < lo {
-		lo = q
-	}
-	if q+1 > hi {
-		hi = q + 1
-	}
-	L := hi - lo
-	if L > 64 {
-		vAssume(false) // outside the bound of this harness
-	}
-	A := make([]int, L)
-	B := make([]int, L)
-	for i, d := range a.ds {
-		A[hi-ae+i] = int(d - '0')
-	}
-	if !b.zero {
-		for i, d := range b.ds {
-			B[hi-be+i] = int(d - '0')
-		}
-	}
-	// D1 = A-B, D2 = B-A with borrows
-	D1 := make([]int, L)
-	D2 := make([]int, L)
-	bo1, bo2 := 0, 0
-	for i := L - 1; i >= 0; i-- {
-		d := A[i] - B[i] - bo1
-		ng := d < 0
-		D1[i] = vIte(ng, d+10, d)
-		bo1 = vB2I(ng)
-		d = B[i] - A[i] - bo2
-		ng = d < 0
-		D2[i] = vIte(ng, d+10, d)
-		bo2 = vB2I(ng)
-	}
-	// |A-B| doubled, with one extra leading digit
-	T := make([]int, L+1)
-	carry := 0
-	for i := L - 1; i >= 0; i-- {
-		t := 2*vIte(bo1 == 1, D2[i], D1[i]) + carry
-		ge := t >= 10
-		T[i+1] = vIte(ge, t-10, t)
-		carry = vB2I(ge)
-	}
-	T[0] = carry
-	// compare T (grid lo, L+1 digits) with 10^q: the 1 sits at index p
-	p := L - (q - lo)
-	above, below := 0, 0
-	for i := 0; i < p; i++ {
-		above += T[i]
-	}
-	for i := p + 1; i <= L; i++ {
-		below += T[i]
-	}
-	if above != 0 {
-		return false
-	}
-	if T[p] == 0 {
-		return true
-	}
-	return T[p] == 1 && below == 0
-}
-
 // VerifNumberExact: Number(in, prec<=0) for every number lexeme of length n (with exponent part).
 func VerifNumberExact(n int) {
 	buf := vBytes("in", n+3)
